@@ -8,6 +8,10 @@ macro_rules! cfg {
 }
 
 fn main() {
+    vengine::on_worker_stack(real_main);
+}
+
+fn real_main() {
     let mut run = Run::from_args("C20", "c20t");
     vcore::core_configs!(cfg, &mut run);
     std::process::exit(run.finish());
